@@ -32,7 +32,8 @@ SIZES = {"quick": 1000, "thorough": 6000}
 
 NAMESP = ["g0", "g1"]
 SEEDS = [1, 2]
-KINDS = ["uniform", "normal", "randint", "choice", "scaled", "decay", "square", "stream", "sampled", "choice_obj"]
+KINDS = ["uniform", "normal", "randint", "choice", "scaled", "decay", "square", "stream", "sampled", "choice_obj",
+         "inv"]            # 1 / (factor * time): undefined (ZeroDivisionError) at time 0
 
 
 def _leaf_gen():
@@ -76,6 +77,9 @@ def _ops(depth=0):
         # read, push, produce a new value carrying the *same* time stamp (forced, or by leaving and coming back), pop
         st.tuples(st.just("pushsame"), inst, pn, st.sampled_from(["force", "roundtrip"]), st.integers(-3, 8)),
     ]
+    if depth >= 1:
+        # inside a time context / pushed state: the clock is given another time type along with a new time
+        base.append(st.tuples(st.just("retype"), st.integers(-3, 8), st.sampled_from(["int", "fraction", "float"])))
     if depth < 2:
         base.append(st.tuples(st.just("ctx"), st.lists(st.deferred(lambda: _ops(depth + 1)), max_size=4)))
         base.append(st.tuples(st.just("pushpop"), inst, st.lists(st.deferred(lambda: _ops(depth + 1)), max_size=4)))
@@ -104,7 +108,7 @@ def _case(draw):
             "share": list(share) if share else None,
             # inst0 gets no generator of its own for n1: it owns a per-instance Parameter copy and then follows a generator
             # assigned on the class
-            "class_gen": draw(st.booleans())}
+            "class_gen": draw(st.sampled_from([False, True, "copied", "copied"]))}
 
 
 def strategy(tier):
@@ -132,6 +136,8 @@ def _build(spec):
         if k == "choice_obj":
             # values that are compared by identity (plain objects)
             return ng.Choice(name=name, seed=seed, choices=_TOKENS[v:] + _TOKENS[:v], time_dependent=True)
+        if k == "inv":
+            return 1.0 / ng.ScaledTime(factor=1.0 + v)
         if k == "stream":
             # a plain random stream: its values depend on how often it was called; Dynamic caches one value per time
             return ng.UniformRandom(name=name, seed=seed + 10 * v)
@@ -184,7 +190,7 @@ def _ident(spec):
     k = spec[0]
     if k == "stream":
         return None
-    if k in ("scaled", "decay", "square"):
+    if k in ("scaled", "decay", "square", "inv"):
         return (k, spec[3])                   # deterministic functions of time: name and seed play no role
     if k in KINDS:
         return tuple(spec)
@@ -226,12 +232,22 @@ def _run(case, res, tf):
         res.label("shared_generator_object")
     for i in range(4):
         cls = P if i < 2 else Q
-        if i == 0 and case.get("class_gen"):
+        if i == 0 and case.get("class_gen"):     # True / "copied"
             o = cls(n0=gens[0])
             o.param["n1"]                   # per-instance Parameter copy, made while the class default is still plain
             P.n1 = gens[1]
             insts.append(o)
             res.label("instance_follows_class_level_generator")
+        elif i == 1 and case.get("class_gen") == "copied" and not (share and {1, 3} & {share[0], share[1]}):
+            # made after the generator was assigned on the class and given none of its own: it gets a copy of the class's
+            # generator, which computes the same function of time (same name and seed)
+            o = cls(n0=gens[2])
+            gens[3] = o.param.get_value_generator("n1")
+            if gens[3] is gens[1]:
+                res.fail("C19.harness", "the late instance shares the class-level generator object")
+            idents[3] = idents[1]
+            insts.append(o)
+            res.label("instance_with_a_copy_of_the_class_level_generator")
         else:
             insts.append(cls(n0=gens[2 * i], n1=gens[2 * i + 1]))
     table = {}
@@ -249,17 +265,23 @@ def _run(case, res, tf):
         # the last-produced value is cached on the generator object (which may sit behind two parameters)
         return id(gens[2 * i + pn])
 
+
     def read(i, pn):
         slot = 2 * i + pn
         name = "n%d" % pn
         t = now()
         first_at_minus1 = (slot not in ever_read) and t == -1
         raw = tf()
+        undefined = False
         try:
             v = getattr(insts[i], name)
         except ValueError:
             v = _OUT                  # the generated number is outside the hard bounds of this Number
             res.label("generated_value_out_of_bounds")
+        except ZeroDivisionError:
+            v = _OUT                  # the generator itself is undefined at this time: every read at this time raises
+            undefined = True
+            res.label("generator_undefined_at_this_time")
         if tf() != raw or type(tf()) is not type(raw):
             res.fail("C19.read_moves_time", f"reading inst{i}.{name} at time {raw!r} left the clock at {tf()!r}")
             tf(raw)
@@ -297,7 +319,7 @@ def _run(case, res, tf):
             if key in table and _acceptable(sk, table[key]):
                 res.fail("C19.not_a_function_of_time", f"generator {idents[slot]} at time {t}: reading inst{i}.{name} raised, but its "
                                                       f"value at that time is {table[key]!r}, which this parameter accepts")
-            raised.setdefault(key, set()).add(sk)
+            raised.setdefault(key, set()).add("dyn" if undefined else sk)     # (undefined: no parameter kind would get a value)
             last_val.pop(lk(i, pn), None)
             last_time[lk(i, pn)] = t
             st_["times_seen"].append(t)
@@ -379,7 +401,14 @@ def _run(case, res, tf):
             slot = 2 * i + pn
             if slot not in ever_read:
                 return
-            v = insts[i].param.force_new_dynamic_value("n%d" % pn)
+            try:
+                v = insts[i].param.force_new_dynamic_value("n%d" % pn)
+            except ZeroDivisionError:
+                # the generator is undefined at this time: nothing new was produced
+                res.label("generator_undefined_at_this_time")
+                last_val.pop(lk(i, pn), None)
+                last_time.pop(lk(i, pn), None)
+                return
             key = (idents[slot], now())
             if idents[slot] is not None and key in table and table[key] != v:
                 res.fail("C19.not_a_function_of_time", f"force_new_dynamic_value(inst{i}.n{pn}) at time {now()} gave {v!r}, "
@@ -406,6 +435,12 @@ def _run(case, res, tf):
                 sub[2] = ["jumpraw", tf()]
             run(["pushpop", i, sub], depth)
             read(i, pn)
+        elif k == "retype":
+            T = {"int": int, "fraction": Fraction, "float": float}[op[2]]
+            tf(T(op[1]), time_type=T)
+            st_["fraction"], st_["float"] = op[2] == "fraction", op[2] == "float"
+            st_["times_seen"].append(now())
+            res.label("time_type_changed_inside_context")
         elif k == "jumpraw":
             tf(op[1])
             st_["times_seen"].append(now())
